@@ -140,6 +140,38 @@ partial def diffV (a b : VNode) (path : List Nat) : Option String :=
         | _, _ => none
       go 0 ks ks'
 
+/-! ## diagnostic: would the table accept the string if every action of a cell were tried
+(repetition-flagged shifts included)?  Used only to fingerprint membership failures. -/
+
+def applyAction (tbl : Table) (c : Conf) (eoe : Bool) : Action → Option (Conf ⊕ Outcome)
+  | .shift s' extra _ =>
+    match c.toks with
+    | [] => none
+    | a :: rest =>
+      let ns := if extra then topState c.stack else s'
+      if ns = 0 ∨ tbl.stateCount ≤ ns then none
+      else some (.inl { stack := (ns, PTree.leaf a extra) :: c.stack, toks := rest })
+  | .reduce A n dp pid =>
+    match reduce tbl c.stack A n dp pid eoe with
+    | .ok st => some (.inl { c with stack := st })
+    | .error _ => none
+  | .accept =>
+    match c.toks, acceptTree c.stack with
+    | [], some t => some (.inr (.accepted t))
+    | _, _ => none
+  | .recover => none
+
+def acceptsAny (tbl : Table) : Nat → Conf → Bool
+  | 0, _ => false
+  | f + 1, c =>
+    let s := topState c.stack
+    let eoe := tbl.lexEnd s
+    let acts := if eoe then tbl.actions s 0 else tbl.actions s (c.toks.headD 0)
+    acts.any fun a => match applyAction tbl c eoe a with
+      | some (.inl c') => acceptsAny tbl f c'
+      | some (.inr (.accepted _)) => true
+      | _ => false
+
 /-! ## `ts_parser__select_tree`: the decision part -/
 
 structure Cand where
